@@ -18,6 +18,7 @@ import re
 import shutil
 import stat
 import subprocess
+import threading
 
 from vcheck import coq_list
 
@@ -96,6 +97,22 @@ def gen_cases(seed, tier):
     if tier == "thorough":
         add("big1m", reps=40000, mode=0o644)
         add("big_missing_tmp", reps=3000, mode=0o600, tmp="missing")
+    # the pinned regression targets (corpus/c35/regress.json): every seed, every tier
+    if True:
+        import json
+        reg = json.load(open(os.path.join(os.path.dirname(os.path.dirname(os.path.abspath(__file__))), "corpus", "c35", "regress.json")))
+        for r in reg["cases"]:
+            kw = dict(r)
+            name = kw.pop("name")
+            if "mode" in kw:
+                kw["mode"] = int(kw["mode"], 8)
+            if "unit" in kw:
+                kw["unit"] = kw["unit"].encode()
+            if "feed" in kw:
+                kw["feed"] = kw["feed"].encode()
+            if "namelen" in kw:
+                kw["path"] = "sub/" + "r" * (kw.pop("namelen") - 3) + ".sh"
+            add(name, pinned=True, **kw)
     for c in cases:
         c["orig"] = c["unit"] * c["reps"]
     return cases
@@ -550,8 +567,9 @@ def run(ctx):
         quick_full.add(cases[i]["name"])
     for i in reg[1:3]:
         quick_key.add(cases[i]["name"])
-    quick_key.update(["hardlink", "hardlink_rel_nested", "hardlink_tiny", "longname_250",
-                      ("longname_240", "longname_255", "longname_247")[ctx.seed % 3]])
+    quick_key.update(c_["name"] for c_ in cases if c_.get("pinned"))
+    quick_key.update([("hardlink", "hardlink_rel_nested", "hardlink_tiny")[ctx.seed % 3],
+                      ("longname_240", "longname_255", "longname_247", "longname_250")[ctx.seed % 4]])
     quick_key.add("big64k" if ctx.seed % 2 == 0 else "hardlink_big")
     blocks = []         # per case: (definitions, [C<k> definitions])
     labels = []
@@ -579,6 +597,22 @@ def run(ctx):
             if inject:
                 argv += ["-e", "inject=%s:signal=SIGKILL:when=%d" % inject]
             argv += [shfmt, "-w", env.arg]
+            feeder = None
+            if c.get("feed") and c["kind"] == "fifo":
+                # a concurrent writer: blocks until somebody opens the FIFO for reading, then feeds it shell source
+                # and closes (the clean shfmt never opens a FIFO; the writer is released after the run)
+                def feed_fifo(path=env.target, data=c["feed"]):
+                    try:
+                        fd = os.open(path, os.O_WRONLY)
+                    except OSError:
+                        return
+                    try:
+                        os.write(fd, data)
+                    except OSError:
+                        pass
+                    os.close(fd)
+                feeder = threading.Thread(target=feed_fifo, daemon=True)
+                feeder.start()
             try:
                 p = subprocess.run(argv, stdout=subprocess.PIPE, stderr=subprocess.PIPE, cwd=env.root, timeout=60,
                                    env={"PATH": "/usr/bin:/bin", "TMPDIR": env.tmp, "HOME": "/nonexistent"},
@@ -586,6 +620,19 @@ def run(ctx):
                 rc, err = p.returncode, p.stderr.decode("utf-8", "replace")
             except subprocess.TimeoutExpired:
                 rc, err = 124, "timeout"
+            if feeder is not None:
+                try:            # release a writer that is still waiting for a reader
+                    if stat.S_ISFIFO(os.lstat(env.target).st_mode):
+                        rfd = os.open(env.target, os.O_RDONLY | os.O_NONBLOCK)
+                        feeder.join(2)
+                        try:
+                            os.read(rfd, 1 << 16)
+                        except OSError:
+                            pass
+                        os.close(rfd)
+                except OSError:
+                    pass
+                feeder.join(2)
             try:
                 text = open(out, encoding="latin-1").read()
                 os.remove(out)
